@@ -547,6 +547,7 @@ type LoopSpec struct {
 	Ordinal    int
 	Anchors    []string
 	Invariants []Clause
+	Passes     []string // bind names: every iteration that goes round the loop passes these program points
 	Decreases  *Clause
 	Modifies   []ModTarget // loop frame: only these cells change in the loop (function-level modifies must precede loop clauses)
 	ModGiven   bool
@@ -642,7 +643,7 @@ type UFDecl struct {
 
 var clauseKeywords = map[string]bool{"ghoststruct": true, "guarded": true, "uf": true, "pred": true,"func": true, "lemma": true, "interface": true, "property": true, "mode": true,
 	"requires": true, "ensures": true, "assert": true, "bind": true, "modifies": true, "inline": true, "trusted": true, "loop": true, "invariant": true,
-	"decreases": true, "maypanic": true, "forall": false, "ghost": true, "method": true, "assume": true, "vars": true, "nosafety": true, "assumepre": true, "interference": true, "pure": true, "witness": true, "wraps": true,
+	"decreases": true, "passes": true, "maypanic": true, "forall": false, "ghost": true, "method": true, "assume": true, "vars": true, "nosafety": true, "assumepre": true, "interference": true, "pure": true, "witness": true, "wraps": true,
 	"atomic": true, "rely": true, "guarantee": true, "addassume": true}
 
 // LoadSpecs reads every verif_contracts.go under the repo plus the assumed
@@ -1111,6 +1112,15 @@ func (db *SpecDB) loadFile(path, pkg string, assumed bool) error {
 				return err
 			}
 			curLoop.Invariants = append(curLoop.Invariants, cl)
+		case "passes":
+			if curLoop == nil {
+				return fmt.Errorf("%s:%d: passes outside loop", path, rc.line)
+			}
+			for _, n := range strings.Split(rc.rest, ",") {
+				if n = strings.TrimSpace(n); n != "" {
+					curLoop.Passes = append(curLoop.Passes, n)
+				}
+			}
 		case "decreases":
 			if curLoop == nil {
 				return fmt.Errorf("%s:%d: decreases outside loop", path, rc.line)
